@@ -66,6 +66,40 @@ theorem candset_rowwise (a : CandsetArgs) (fp : Cell → Cell → Except PyErr B
         fr.rows.zip fr.index = (c.rows.zip c.index).filter (fun p => !fpb (lval p.1) (rval p.1))) :=
   filterCandset_full a fp fpb cpu c l r hc hlt hrt hv1 hv2 hv3 hv4 hv5 hv6 hv7 hv8 hv9 hv10 lval rval hl hr hfp hlen
 
+/-- (C06, corollary) `filter_candset` is IDEMPOTENT: filtering its own result again — same filter, same tables, any
+    `n_jobs` and cpu count — drops nothing more and changes nothing: same columns, dtypes and rows.  (Row-wise
+    `filter_pair` with a verdict that depends on the referenced values only.) -/
+theorem candset_idempotent (a : CandsetArgs) (fp : Cell → Cell → Except PyErr Bool) (fpb : Cell → Cell → Bool)
+    (cpu cpu' : Int) (c l r : Frame)
+    (hc : a.candset = some c) (hlt : a.ltable = some l) (hrt : a.rtable = some r)
+    (hv1 : validateAttr a.candLKey c = .ok ()) (hv2 : validateAttr a.candRKey c = .ok ())
+    (hv3 : validateAttr a.lKey l = .ok ()) (hv4 : validateAttr a.rKey r = .ok ())
+    (hv5 : validateAttr a.lAttr l = .ok ()) (hv6 : validateAttr a.rAttr r = .ok ())
+    (hv7 : validateAttrType a.lAttr l = .ok ()) (hv8 : validateAttrType a.rAttr r = .ok ())
+    (hv9 : validateKeyAttr a.lKey l = .ok ()) (hv10 : validateKeyAttr a.rKey r = .ok ())
+    (lval rval : Row → Cell)
+    (hl : ∀ cr ∈ c.rows, ∃ ls ∈ l.rows, (keyOf l a.lKey ls).pyEq (cr.cell (c.colIdx a.candLKey)) = true ∧
+                                        valOf l a.lAttr ls = lval cr)
+    (hr : ∀ cr ∈ c.rows, ∃ rs ∈ r.rows, (keyOf r a.rKey rs).pyEq (cr.cell (c.colIdx a.candRKey)) = true ∧
+                                        valOf r a.rAttr rs = rval cr)
+    (hfp : ∀ cr ∈ c.rows, fp (lval cr) (rval cr) = .ok (fpb (lval cr) (rval cr)))
+    (hlen : c.rows.length < 2 ^ 40) :
+    ∃ fr fr', filterCandset a fp cpu = .ok fr ∧ filterCandset { a with candset := some fr } fp cpu' = .ok fr' ∧
+      fr'.columns = fr.columns ∧ fr'.dtypes = fr.dtypes ∧ fr'.rows = fr.rows := by
+  obtain ⟨fr, h1, h2, h3, h4, _⟩ := candset_rowwise a fp fpb cpu c l r hc hlt hrt hv1 hv2 hv3 hv4 hv5 hv6 hv7 hv8 hv9 hv10
+    lval rval hl hr hfp hlen
+  have hsub : ∀ cr ∈ fr.rows, cr ∈ c.rows := fun cr h => by rw [h4] at h; exact (List.mem_filter.mp h).1
+  have hidx : ∀ k, fr.colIdx k = c.colIdx k := fun k => by unfold Frame.colIdx; rw [h2]
+  have hva : ∀ k, validateAttr k fr = validateAttr k c := fun k => by unfold validateAttr Frame.hasCol; rw [h2]
+  obtain ⟨fr', g1, g2, g3, g4, _⟩ := candset_rowwise { a with candset := some fr } fp fpb cpu' fr l r rfl hlt hrt
+    (by rw [hva]; exact hv1) (by rw [hva]; exact hv2) hv3 hv4 hv5 hv6 hv7 hv8 hv9 hv10 lval rval
+    (fun cr h => by rw [hidx]; exact hl cr (hsub cr h)) (fun cr h => by rw [hidx]; exact hr cr (hsub cr h))
+    (fun cr h => hfp cr (hsub cr h))
+    (lt_of_le_of_lt (by rw [h4]; exact List.length_filter_le _ _) hlen)
+  refine ⟨fr, fr', h1, g1, g2, g3, ?_⟩
+  rw [g4, h4, List.filter_filter]
+  simp
+
 /-- `candset_rowwise` for Size/Prefix/Position/SuffixFilter: when the two filter columns hold only strings and missing
     values, `filter_pair` raises on no referenced pair and the kept rows are those `filterPair` does not drop -/
 theorem candset_rowwise_filter (k : FilterKind) (f : FilterObj) (tok : String → List Tok)
